@@ -10,7 +10,7 @@
   Python specifics that decide answers and are therefore explicit here:
     * dict iteration order  = list order;
     * `not feature_key`     = truthiness of `None` / of an IntEnum member (member with value 0 is falsy)  [F-C18a];
-    * `re.match("^k$", q)`  = `$` also matches before ONE trailing newline                               [F-C18b];
+    * `re.match("^k$", q)`  = `$` also matches before ONE trailing newline      [F-C18b, repaired: fullmatch];
     * `Enum[q.upper()]`     = KeyError when absent; `vals[0]` = IndexError on an empty list;
     * `sorted`              = stable merge sort; `set` = duplicate-free list (reported sorted by the driver).
 
@@ -48,22 +48,14 @@ def currentRule : Rule := ⟨false, true⟩   -- F-C18b repaired in /repo (5ed96
 def upperStr (s : Str) : Str := s.map Char.toUpper
 def lowerStr (s : Str) : Str := s.map Char.toLower
 
-/-- FEATURE_INTERVAL_NAME_QUALIFIERS (a Python set; order is irrelevant) -/
-def nameRegexKeys : List Str := [
-  ['f', 'e', 'a', 't', 'u', 'r', 'e', '_', 'n', 'a', 'm', 'e'],
-  ['n', 'a', 'm', 'e'],
-  ['s', 't', 'a', 'n', 'd', 'a', 'r', 'd', '_', 'n', 'a', 'm', 'e'],
-  ['g', 'e', 'n', 'e'],
-  ['g', 'e', 'n', 'e', '_', 'n', 'a', 'm', 'e'],
-  ['l', 'a', 'b', 'e', 'l'],
-  ['o', 'p', 'e', 'r', 'o', 'n']]
+/-- FEATURE_INTERVAL_NAME_QUALIFIERS — the GENERATED set literal (a Python set; order is irrelevant) -/
+def nameRegexKeys : List Str := Gen.features_FEATURE_INTERVAL_NAME_QUALIFIERS
 
-/-- FEATURE_INTERVAL_ID_QUALIFIERS -/
-def idRegexKeys : List Str := [
-  ['f', 'e', 'a', 't', 'u', 'r', 'e', '_', 'i', 'd'],
-  ['i', 'd']]
+/-- FEATURE_INTERVAL_ID_QUALIFIERS — generated -/
+def idRegexKeys : List Str := Gen.features_FEATURE_INTERVAL_ID_QUALIFIERS
 
-/-- `re.match(r"(^k1$|^k2$|…)", q, re.IGNORECASE)` on ASCII: `$` matches at the end and before one final `\n`. -/
+/-- `re.fullmatch(r"(^k1$|^k2$|…)", q, re.IGNORECASE)` on ASCII (`fullMatch = true`, the code since 5ed9681);
+    before that repair it was `re.match`, where `$` also matches before one final `\n` (`fullMatch = false`). -/
 def reMatchKeys (fullMatch : Bool) (keys : List Str) (q : Str) : Bool :=
   let core := if !fullMatch && q.getLast? == some '\n' then q.dropLast else q
   keys.contains (lowerStr core)
@@ -87,27 +79,34 @@ def unset (r : Rule) : Option Int → Bool
 def better (r : Rule) (cur : Option Int) (this : Int) : Bool :=
   unset r cur || (match cur with | some k => decide (this < k) | none => false)
 
+/-- the guard of one branch: `re.fullmatch(REGEX, qualifier) and qualifier.upper() in Enum.__members__`, then
+    `Enum[qualifier.upper()]`.  Before the repair (`fullMatch = false`) there was no membership test and the
+    enum lookup raised KeyError (F-C18b). -/
+def branchHit (r : Rule) (keys : List Str) (table : List (Str × Int)) (q : Str) : R (Option Int) :=
+  if reMatchKeys r.fullMatch keys q then
+    match table.lookup (upperStr q) with
+    | some this => pure (some this)
+    | none => if r.fullMatch then pure none else throw .keyError
+  else pure none
+
 /-- one iteration of `for qualifier, vals in feature_qualifiers.items()` -/
-def step (r : Rule) (st : St) (e : Str × List Str) : R St :=
-  if reMatchKeys r.fullMatch nameRegexKeys e.1 then
-    match Gen.featureNameQualifiers.lookup (upperStr e.1) with
-    | none => throw .keyError
-    | some this =>
-      if better r st.key this then
-        match e.2 with
-        | [] => throw .indexError
-        | v :: _ => pure { st with name := some v, key := some this }
-      else pure st
-  else if reMatchKeys r.fullMatch idRegexKeys e.1 then
-    match Gen.featureIdQualifiers.lookup (upperStr e.1) with
-    | none => throw .keyError
+def step (r : Rule) (st : St) (e : Str × List Str) : R St := do
+  match (← branchHit r nameRegexKeys Gen.featureNameQualifiers e.1) with
+  | some this =>
+    if better r st.key this then
+      match e.2 with
+      | [] => throw .indexError
+      | v :: _ => pure { st with name := some v, key := some this }
+    else pure st
+  | none =>
+    match (← branchHit r idRegexKeys Gen.featureIdQualifiers e.1) with
     | some this =>
       if better r st.idKey this then
         match e.2 with
         | [] => throw .indexError
         | v :: _ => pure { st with id := some v, idKey := some this }
       else pure st
-  else pure st
+    | none => pure st
 
 def loop (r : Rule) : St → QDict → R St
   | st, [] => pure st
@@ -169,8 +168,8 @@ def isInfix (pat : Str) : Str → Bool
   | [] => pat.isEmpty
   | c :: cs => pat.isPrefixOf (c :: cs) || isInfix pat cs
 
-/-- FEATURE_TYPE_IDENTIFIERS -/
-def typeIdentifiers : List Str := [['_', 'c', 'l', 'a', 's', 's'], ['g', 'b', 'k', 'e', 'y'], ['_', 't', 'y', 'p', 'e']]
+/-- FEATURE_TYPE_IDENTIFIERS — generated -/
+def typeIdentifiers : List Str := Gen.features_FEATURE_TYPE_IDENTIFIERS
 
 /-- `re.search(FEATURE_TYPE_IDENTIFIERS_REGEX, key)` with IGNORECASE -/
 def typeRegexSearch (key : Str) : Bool := typeIdentifiers.any fun p => isInfix p (lowerStr key)
@@ -197,17 +196,19 @@ def mergeQualifiers (a b : QDict) : QDict :=
 
 /-! ### filter_and_sort_qualifiers -/
 
-/-- alternatives of BIOCANTOR_QUALIFIERS_REGEX (gff3/constants.py) -/
-def biocantorQualifierTerms : List Str := [
-  "ID".toList, "Name".toList, "Parent".toList, "feature_collection_id".toList, "feature_collection_name".toList,
-  "feature_collection_type".toList, "feature_colletion_type".toList, "feature_id".toList, "feature_name".toList,
-  "feature_type".toList, "gene_biotype".toList, "gene_id".toList, "gene_name".toList, "gene_symbol".toList,
-  "gene_type".toList, "id".toList, "locus_tag".toList, "name".toList, "parent".toList, "product".toList,
-  "protein_id".toList, "transcript_biotype".toList, "transcript_id".toList, "transcript_name".toList,
-  "transcript_type".toList]
+/-- iterating an `Enum` class skips aliases: one member (the first) per distinct value -/
+def enumCanonical (members : List (Str × Str)) : List (Str × Str) :=
+  members.foldl (fun acc m => if acc.any (fun x => x.2 == m.2) then acc else acc ++ [m]) []
 
-/-- `re.match(BIOCANTOR_QUALIFIERS_REGEX, key)`: an unanchored alternation matched at the start = PREFIX match
-    (F-C11b); `exact = true` is the proposed `fullmatch`. -/
+/-- alternatives of BIOCANTOR_QUALIFIERS_REGEX (gff3/constants.py):
+    `set.union(*[{k.name.lower(), k.value} for k in chain(BioCantorQualifiers, BioCantorGFF3ReservedQualifiers)])`
+    over the GENERATED enum tables (duplicates are harmless: the list is only searched) -/
+def biocantorQualifierTerms : List Str :=
+  (enumCanonical Gen.gff3_BioCantorQualifiers ++ enumCanonical Gen.gff3_BioCantorGFF3ReservedQualifiers).flatMap
+    fun m => [lowerStr m.1, m.2]
+
+/-- `re.fullmatch(BIOCANTOR_QUALIFIERS_REGEX, key)` (`exact = true`, the code since 245297c); before that repair
+    `re.match`: an unanchored alternation matched at the start = PREFIX match (F-C11b, `exact = false`). -/
 def reservedMatch (exact : Bool) (key : Str) : Bool :=
   biocantorQualifierTerms.any fun t => if exact then t == key else t.isPrefixOf key
 
@@ -260,5 +261,37 @@ def groupSorted (fs : List Feat) : R (List Group) := processRuns (groupRuns fs)
 
 /-- sort (LocusTagGenBankParser._extract_seqfeatures_from_seqrecords) + `_group_features_by_locus_tag` -/
 def groupByLocusTag (fs : List Feat) : R (List Group) := groupSorted (sortByTag fs)
+
+/-! ### gene biotype (GeneFeature.to_gene_model, io/genbank/parser.py) -/
+
+/-- `Counter[k] += 1` on a Counter kept in insertion order -/
+def counterBump : List (Str × Nat) → Str → List (Str × Nat)
+  | [], k => [(k, 1)]
+  | e :: es, k => if e.1 = k then (e.1, e.2 + 1) :: es else e :: counterBump es k
+
+/-- `tx_biotypes = Counter(); for tx in children: tx_biotypes[biotype] += 1` (biotypes by their `.name`) -/
+def counterOf (types : List Str) : List (Str × Nat) := types.foldl counterBump []
+
+/-- `min(iterable, key=…)`: the first element that no other element is strictly below (`none` = ValueError) -/
+def pyMinBy {α} (lt : α → α → Bool) : List α → Option α
+  | [] => none
+  | x :: xs => some (xs.foldl (fun best y => if lt y best then y else best) x)
+
+/-- `key=lambda biotype: (-tx_biotypes[biotype], biotype.name)` compared as tuples -/
+def biotypeKeyLt (a b : Str × Nat) : Bool := decide (a.2 > b.2) || (a.2 == b.2 && strLt a.1 b.1)
+
+/-- the transcript biotype name of a GenBank transcript feature type (no /pseudo qualifier): `protein_coding` for
+    the coding type (`TranscriptFeatures.CODING_TRANSCRIPT`, generated), else `Biotype[type].name` = the type itself -/
+def txBiotypeName (featureType : Str) : Str :=
+  if Gen.genbank_TranscriptFeatures.lookup "CODING_TRANSCRIPT".toList == some featureType then "protein_coding".toList
+  else featureType
+
+/-- `gene_biotype = min(tx_biotypes, key=lambda b: (-tx_biotypes[b], b.name))` (the code since 3370634) -/
+def geneBiotype (types : List Str) : Option Str := (pyMinBy biotypeKeyLt (counterOf types)).map (·.1)
+
+/-- before the repair: `tx_biotypes.most_common(1)[0][0]` — a stable sort by decreasing count, i.e. the FIRST
+    inserted biotype of maximal count (F-C18c) -/
+def geneBiotypeOld (types : List Str) : Option Str :=
+  (pyMinBy (fun (a b : Str × Nat) => decide (a.2 > b.2)) (counterOf types)).map (·.1)
 
 end BioCantor.Model.Qual
